@@ -181,6 +181,17 @@ class Translator:
                     e.slice.lower is not None and e.slice.upper is not None:
                 return '(sliceM %s %s %s)' % (self.expr(e.value, env, cname), self.expr(e.slice.lower, env, cname),
                                              self.expr(e.slice.upper, env, cname))
+        if getattr(self, 'effect_mode', None) == 'mongo':
+            if isinstance(e, ast.Call) and isinstance(e.func, ast.Attribute) and isinstance(e.func.value, ast.Name) and \
+                    e.func.value.id == 'self' and len(e.args) == 1 and not e.keywords and \
+                    e.func.attr in ('__prepare_doc', '__prepare_from_doc'):
+                return '(%s %s)' % ('prepareDocM' if e.func.attr == '__prepare_doc' else 'fromDocM',
+                                    self.expr(e.args[0], env, cname))
+        if getattr(self, 'effect_mode', None) == 'redis':
+            if isinstance(e, ast.Call) and isinstance(e.func, ast.Attribute) and e.func.attr in ('serialize', 'deserialize') and \
+                    isinstance(e.func.value, ast.Attribute) and e.func.value.attr == 'sr' and \
+                    isinstance(e.func.value.value, ast.Name) and e.func.value.value.id == 'self' and len(e.args) == 1:
+                return '(%sM %s %s)' % (e.func.attr, self.expr(e.args[0], env, cname), env['__w'])
         if getattr(self, 'effect_mode', None) == 'gen':
             if isinstance(e, ast.Call) and isinstance(e.func, ast.Attribute) and e.func.attr == 'get_all' and \
                     isinstance(e.func.value, ast.Name) and e.func.value.id == 'self' and len(e.args) == 2 and not e.keywords:
@@ -593,6 +604,109 @@ class Translator:
             hoisted = self._hoist_store_call(s, rest, env, cname, end, brk)
             if hoisted is not None:
                 return hoisted
+        if getattr(self, 'effect_mode', None) == 'mongo':
+            def coll_call(c, name):
+                return isinstance(c, ast.Call) and isinstance(c.func, ast.Attribute) and c.func.attr == name and \
+                    isinstance(c.func.value, ast.Attribute) and c.func.value.attr == 'collection' and \
+                    isinstance(c.func.value.value, ast.Name) and c.func.value.value.id == 'self'
+
+            def id_filter(n):
+                """{'_id': X} -> X"""
+                if isinstance(n, ast.Dict) and len(n.keys) == 1 and isinstance(n.keys[0], ast.Constant) and n.keys[0].value == '_id':
+                    return n.values[0]
+                return None
+
+            def fresh_w():
+                self.fresh += 1
+                w = 'w%d' % self.fresh
+                env2 = dict(env)
+                env2['__w'] = '(pure %s)' % w
+                return w, env2
+            if isinstance(s, ast.Try) and not s.orelse and not s.finalbody and len(s.handlers) == 1 and \
+                    isinstance(s.handlers[0].type, ast.Name) and s.handlers[0].type.id == 'DuplicateKeyError' and \
+                    len(s.body) == 1 and isinstance(s.body[0], ast.Expr) and coll_call(s.body[0].value, 'insert_one') and \
+                    len(s.body[0].value.args) == 1 and not s.body[0].value.keywords:
+                w, env2 = fresh_w()
+                self.fresh += 1
+                wd = 'w%d' % self.fresh
+                envd = dict(env)
+                envd['__w'] = '(pure %s)' % wd
+                return '(insertOneM %s %s\n      (fun %s => %s)\n      (fun %s => %s))' % (
+                    self.expr(s.body[0].value.args[0], env, cname), env['__w'], w, self.block(rest, env2, cname, end, brk),
+                    wd, self.block([b for b in s.handlers[0].body if not is_log_call(b)], envd, cname, end, brk))
+            if isinstance(s, ast.Assign) and len(s.targets) == 1 and isinstance(s.targets[0], ast.Name) and \
+                    coll_call(s.value, 'find_one') and len(s.value.args) == 1 and not s.value.keywords:
+                self.fresh += 1
+                r, w = 'r%d' % self.fresh, 'w%d' % self.fresh
+                env2 = dict(env)
+                env2[s.targets[0].id] = '(pure %s)' % r
+                env2['__w'] = '(pure %s)' % w
+                return '(findOneM %s %s fun %s %s =>\n      %s)' % (self.expr(s.value.args[0], env, cname), env['__w'], r, w,
+                                                                   self.block(rest, env2, cname, end, brk))
+            if isinstance(s, ast.Expr) and coll_call(s.value, 'update_one') and len(s.value.args) == 2 and \
+                    [(k.arg, getattr(k.value, 'value', None)) for k in s.value.keywords] == [('upsert', False)] and \
+                    id_filter(s.value.args[0]) is not None and isinstance(s.value.args[1], ast.Dict) and \
+                    len(s.value.args[1].keys) == 1 and getattr(s.value.args[1].keys[0], 'value', None) == '$set':
+                w, env2 = fresh_w()
+                return '(updateOneM %s %s %s fun %s =>\n      %s)' % (
+                    self.expr(id_filter(s.value.args[0]), env, cname), self.expr(s.value.args[1].values[0], env, cname),
+                    env['__w'], w, self.block(rest, env2, cname, end, brk))
+            if isinstance(s, ast.Expr) and coll_call(s.value, 'delete_one') and len(s.value.args) == 1 and \
+                    not s.value.keywords and id_filter(s.value.args[0]) is not None:
+                w, env2 = fresh_w()
+                return '(deleteOneM %s %s fun %s =>\n      %s)' % (self.expr(id_filter(s.value.args[0]), env, cname), env['__w'], w,
+                                                                  self.block(rest, env2, cname, end, brk))
+            if isinstance(s, ast.Raise) and isinstance(s.exc, ast.Call) and isinstance(s.exc.func, ast.Name):
+                return '(raiseMongoM "%s" %s)' % (s.exc.func.id, env['__w'])
+            if isinstance(s, ast.Return):
+                return '(pairM %s %s)' % (self.expr(s.value, env, cname) if s.value is not None else 'cNone', env['__w'])
+        if getattr(self, 'effect_mode', None) == 'redis':
+            def is_collection(n):
+                return isinstance(n, ast.Attribute) and n.attr == 'collection' and isinstance(n.value, ast.Name) and n.value.id == 'self'
+
+            def client_call(c):
+                """(primitive, argument terms) for a call of the Redis client / the registered script on this storage's hash"""
+                if not (isinstance(c, ast.Call) and isinstance(c.func, ast.Attribute)):
+                    return None
+                f = c.func
+                if isinstance(f.value, ast.Attribute) and f.value.attr == 'client' and isinstance(f.value.value, ast.Name) and \
+                        f.value.value.id == 'self' and not c.keywords and c.args and is_collection(c.args[0]):
+                    prim = {'hsetnx': ('hsetnxM', 2), 'hget': ('hgetM', 1), 'hdel': ('hdelM', 1)}.get(f.attr)
+                    if prim and len(c.args) == 1 + prim[1]:
+                        return prim[0], [self.expr(a, env, cname) for a in c.args[1:]]
+                if f.attr == 'updater' and isinstance(f.value, ast.Attribute) and f.value.attr == 'scripts' and not c.args:
+                    kw = {k.arg: k.value for k in c.keywords}
+                    if set(kw) == {'keys', 'args'} and isinstance(kw['keys'], ast.List) and len(kw['keys'].elts) == 1 and \
+                            is_collection(kw['keys'].elts[0]) and isinstance(kw['args'], ast.List) and len(kw['args'].elts) == 2:
+                        return 'scriptUpdateM', [self.expr(a, env, cname) for a in kw['args'].elts]
+                return None
+            if isinstance(s, ast.Assign) and len(s.targets) == 1 and isinstance(s.targets[0], ast.Name):
+                cc = client_call(s.value)
+                if cc:
+                    self.fresh += 1
+                    r, w = 'r%d' % self.fresh, 'w%d' % self.fresh
+                    env2 = dict(env)
+                    env2[s.targets[0].id] = '(pure %s)' % r
+                    env2['__w'] = '(pure %s)' % w
+                    return '(%s %s %s fun %s %s =>\n      %s)' % (cc[0], ' '.join(cc[1]), env['__w'], r, w,
+                                                                 self.block(rest, env2, cname, end, brk))
+            if isinstance(s, ast.Raise) and isinstance(s.exc, ast.Call) and isinstance(s.exc.func, ast.Name):
+                return '(raiseRedisM "%s" %s)' % (s.exc.func.id, env['__w'])
+            if isinstance(s, ast.Raise) and isinstance(s.exc, ast.Name):
+                return '(raiseRedisM "re-raised" %s)' % env['__w']           # `raise e` in a handler
+            if isinstance(s, ast.Try) and not s.orelse and not s.finalbody and len(s.handlers) == 1 and \
+                    isinstance(s.handlers[0].type, ast.Name) and s.handlers[0].type.id == 'Exception':
+                hb = [b for b in s.handlers[0].body if not is_log_call(b)]
+                if len(hb) == 1 and isinstance(hb[0], ast.Raise):
+                    # the handler only re-labels / re-raises: an exception in the body ends the method through it
+                    return '(tryElseM %s\n      %s)' % (self.block(s.body + rest, env, cname, end, brk),
+                                                       self.block(hb, env, cname, end, brk))
+            if isinstance(s, ast.Return):
+                return '(pairM %s %s)' % (self.expr(s.value, env, cname) if s.value is not None else 'cNone', env['__w'])
+            if isinstance(s, ast.If) and not [b for b in s.body if not is_log_call(b)] and \
+                    not [b for b in s.orelse if not is_log_call(b)] and isinstance(s.test, ast.Compare):
+                # a branch that only logs: nothing to do (the test is a comparison of a local with a constant)
+                return self.block(rest, env, cname, end, brk)
         if getattr(self, 'effect_mode', None) == 'gen':
             if isinstance(s, ast.Expr) and isinstance(s.value, ast.Yield) and s.value.value is not None:
                 # yield x: one more item of what the generator produces
@@ -1182,6 +1296,72 @@ def translate_migration(repo):
 ENFOLD_METHODS = ['add', 'update', 'delete', 'get', 'get_all', 'populate']
 
 
+MONGO_METHODS = ['add', 'get', 'update', 'delete']
+
+
+def translate_mongo(repo):
+    out = ['import Model.PyPrim', '/-! GENERATED by harness/pytolean.py from vakt/storage/mongo.py (class MongoStorage) - do not edit -/',
+           'set_option linter.unusedVariables false', 'namespace Vakt.GenMongo', 'open Vakt Vakt.PyPrim', '']
+    done, failed = [], []
+    tr = Translator(ast.parse(open(os.path.join(repo, 'vakt', 'storage', 'mongo.py')).read()))
+    tr.effect_mode = 'mongo'
+    for m in MONGO_METHODS:
+        try:
+            f = tr.method('MongoStorage', m)
+            params = [a.arg for a in f.args.args]
+            tr.attrs, tr.fresh = set(), 0
+            env = {p: '(pure p_%s)' % p for p in params}
+            env['__w'] = '(pure p_w)'
+            body = tr.block(f.body, env, 'MongoStorage', end=lambda e: '(pairM cNone %s)' % e['__w'])
+            if tr.attrs:
+                raise Untranslatable('reads attributes %s' % sorted(tr.attrs))
+            out.append('/-- `vakt.storage.mongo.MongoStorage.%s` (the collection calls as effects; the last parameter is the world, the '
+                       'result the returned value with the world, or the world recording the exception) -/' % m)
+            out.append('def %s_MongoStorage (%s p_w : V) : M :=\n    %s\n' % (m, ' '.join('p_%s' % p for p in params), body))
+            done.append(m)
+        except Untranslatable as e:
+            failed.append((m, str(e)))
+    out.append('def translatedMongo : List String := [%s]' % ', '.join('"%s"' % c for c in done))
+    out.append('def untranslatedMongo : List (String × String) := [%s]' % ', '.join(
+        '("%s", "%s")' % (c, r.replace('"', "'")) for c, r in failed))
+    out.append('')
+    out.append('end Vakt.GenMongo')
+    return '\n'.join(out) + '\n', [('mongo', c, []) for c in done], [('mongo', c, r) for c, r in failed]
+
+
+REDIS_METHODS = ['add', 'get', 'update', 'delete']
+
+
+def translate_redis(repo):
+    out = ['import Model.PyPrim', '/-! GENERATED by harness/pytolean.py from vakt/storage/redis.py (class RedisStorage) - do not edit -/',
+           'set_option linter.unusedVariables false', 'namespace Vakt.GenRedis', 'open Vakt Vakt.PyPrim', '']
+    done, failed = [], []
+    tr = Translator(ast.parse(open(os.path.join(repo, 'vakt', 'storage', 'redis.py')).read()))
+    tr.effect_mode = 'redis'
+    for m in REDIS_METHODS:
+        try:
+            f = tr.method('RedisStorage', m)
+            params = [a.arg for a in f.args.args]
+            tr.attrs, tr.fresh = set(), 0
+            env = {p: '(pure p_%s)' % p for p in params}
+            env['__w'] = '(pure p_w)'
+            body = tr.block(f.body, env, 'RedisStorage', end=lambda e: '(pairM cNone %s)' % e['__w'])
+            if tr.attrs:
+                raise Untranslatable('reads attributes %s' % sorted(tr.attrs))
+            out.append('/-- `vakt.storage.redis.RedisStorage.%s` (the client calls as effects on the hash; the last parameter is the '
+                       'world, the result the returned value with the world, or the world recording the exception) -/' % m)
+            out.append('def %s_RedisStorage (%s p_w : V) : M :=\n    %s\n' % (m, ' '.join('p_%s' % p for p in params), body))
+            done.append(m)
+        except Untranslatable as e:
+            failed.append((m, str(e)))
+    out.append('def translatedRedis : List String := [%s]' % ', '.join('"%s"' % c for c in done))
+    out.append('def untranslatedRedis : List (String × String) := [%s]' % ', '.join(
+        '("%s", "%s")' % (c, r.replace('"', "'")) for c, r in failed))
+    out.append('')
+    out.append('end Vakt.GenRedis')
+    return '\n'.join(out) + '\n', [('redis', c, []) for c in done], [('redis', c, r) for c, r in failed]
+
+
 MEMORY_METHODS = ['add', 'get', 'get_all', 'find_for_inquiry', 'update', 'delete']
 
 
@@ -1414,7 +1594,9 @@ def regenerate(repo, lean_dir):
                                  (translate_observable, 'GenObservable', ('translatedObservable', 'untranslatedObservable'),
                                   'Observable.lean'),
                                  (translate_policy_json, 'GenPolicyJson', ('translatedPolicyJson', 'untranslatedPolicyJson'),
-                                  'PolicyJson.lean')):
+                                  'PolicyJson.lean'),
+                                 (translate_redis, 'GenRedis', ('translatedRedis', 'untranslatedRedis'), 'Redis.lean'),
+                                 (translate_mongo, 'GenMongo', ('translatedMongo', 'untranslatedMongo'), 'Mongo.lean')):
         try:
             xtext, xtr, xun = fn(repo)
         except Exception as e:
@@ -1449,6 +1631,10 @@ if __name__ == '__main__':
         text, tr, un = translate_audit_msgs(repo)
     if '--guard-audit' in sys.argv:
         text, tr, un = translate_guard_audit(repo)
+    if '--mongo' in sys.argv:
+        text, tr, un = translate_mongo(repo)
+    if '--redis' in sys.argv:
+        text, tr, un = translate_redis(repo)
     if '--memory' in sys.argv:
         text, tr, un = translate_memory(repo)
     if '--policy-json' in sys.argv:
